@@ -787,7 +787,25 @@ def _regex_bounded(self, cx):
     def reference(text, q):
         m = rx.match(text, q)
         return None if m is None else (m.group(0), m.end())
-    return _leaf_bounded(src, isb, cx.cfg['skip'], cx.uses_context, reference, syms, 4)
+    bad, tried, bound = _leaf_bounded(src, isb, cx.cfg['skip'], cx.uses_context, reference, syms, 4)
+    # the re contract makes the match a function of (pattern, flags, WHOLE text, pos): what lies to the left of pos is visible to the pattern
+    # (word boundaries, look-behind; `^` / `\A` match only at the very start of the text) - patterns that can tell, at every start offset
+    for cpat, csyms in CONTEXT_PATTERNS:
+        if bad:
+            break
+        if isb:
+            cpat, csyms = cpat.encode(), [c.encode() for c in csyms]
+        crx = _re.compile(cpat)
+
+        def cref(text, q, crx=crx):
+            m = crx.match(text, q)
+            return None if m is None else (m.group(0), m.end())
+        b2, t2, _ = _leaf_bounded(('b' if isb else '') + '/' + (cpat.decode() if isb else cpat) + '/', isb, cx.cfg['skip'], cx.uses_context, cref, csyms, 3)
+        bad, tried = bad + [dict(v, pattern=repr(cpat)) for v in b2], tried + t2
+    return bad, tried, bound + f'; plus {len(CONTEXT_PATTERNS)} context-sensitive patterns (word boundary, look-behind, start anchors) on all texts up to length 3'
+
+
+CONTEXT_PATTERNS = [(r'\bb', ['a', 'b', '-']), (r'(?<=a)c', ['a', 'c']), (r'^a', ['a', 'b']), (r'\Aa|b', ['a', 'b']), (r'\Ba', ['a', '-'])]
 
 
 def _byte_bounded(self, cx):
